@@ -273,7 +273,143 @@ fn run_case(case: &Sx) -> Sx {
     Sx::L(out)
 }
 
+// ---------------------------------------------------------------------------------------------
+// leg `put`: the real `DiskCache` (src/cache/disk.rs) — reserve, write, commit | abandon — with an
+// injected write fault: while a `put` with fault m+1 runs, RLIMIT_FSIZE is m bytes (SIGXFSZ ignored),
+// so the write of the entry data into the reserved temp file fails with EFBIG after m bytes, as it
+// would on a full disk or an exceeded quota.  Entries are valid empty zips of exactly n bytes.
+// ---------------------------------------------------------------------------------------------
+mod put_leg {
+    use sccache::verif_hooks::cache::disk::DiskCache;
+    use sccache::verif_hooks::cache::{Cache, CacheMode, CacheWrite, PreprocessorCacheModeConfig, Storage};
+    use std::os::unix::ffi::OsStrExt;
+    use std::path::Path;
+    use vh::{catch, Sx};
+
+    struct FileSizeLimit(libc::rlimit);
+    impl FileSizeLimit {
+        fn set(bytes: u64) -> FileSizeLimit {
+            unsafe {
+                libc::signal(libc::SIGXFSZ, libc::SIG_IGN);
+                let mut old = std::mem::zeroed::<libc::rlimit>();
+                assert_eq!(libc::getrlimit(libc::RLIMIT_FSIZE, &mut old), 0);
+                let new = libc::rlimit { rlim_cur: bytes as libc::rlim_t, rlim_max: old.rlim_max };
+                assert_eq!(libc::setrlimit(libc::RLIMIT_FSIZE, &new), 0);
+                FileSizeLimit(old)
+            }
+        }
+    }
+    impl Drop for FileSizeLimit {
+        fn drop(&mut self) {
+            unsafe {
+                libc::setrlimit(libc::RLIMIT_FSIZE, &self.0);
+            }
+        }
+    }
+
+    fn count_tmp(dir: &Path, n: &mut u64) {
+        if let Ok(rd) = std::fs::read_dir(dir) {
+            for e in rd.flatten() {
+                let p = e.path();
+                match e.file_type() {
+                    Ok(t) if t.is_dir() => count_tmp(&p, n),
+                    Ok(t) if t.is_file() => {
+                        if p.file_name().unwrap().as_bytes().starts_with(b".sccachetmp") {
+                            *n += 1;
+                        }
+                    }
+                    _ => {}
+                }
+            }
+        }
+    }
+
+    fn classify(e: &anyhow::Error, faulted: bool) -> &'static str {
+        for c in e.chain() {
+            if let Some(le) = c.downcast_ref::<sccache::lru_disk_cache::Error>() {
+                return match le {
+                    sccache::lru_disk_cache::Error::FileTooLarge => "too_large",
+                    sccache::lru_disk_cache::Error::FileNotInCache => "not_in_cache",
+                    sccache::lru_disk_cache::Error::Io(_) => "io_err",
+                };
+            }
+        }
+        if faulted {
+            "write_err"
+        } else {
+            "io_err"
+        }
+    }
+
+    pub fn run_case(case: &Sx) -> Sx {
+        let td = tempfile::Builder::new().prefix("vh-c07p-").tempdir_in("/dev/shm").unwrap();
+        let root = td.path().join("cache");
+        let rt = tokio::runtime::Builder::new_multi_thread().enable_all().worker_threads(1).build().unwrap();
+        let cache = DiskCache::new(
+            &root,
+            case.arg(0).u64(),
+            rt.handle(),
+            PreprocessorCacheModeConfig::default(),
+            CacheMode::ReadWrite,
+        );
+        let mut out = vec![];
+        let mut poisoned = false;
+        for op in case.arg(1).list() {
+            if poisoned {
+                out.push(Sx::L(vec![Sx::sym("panic")]));
+                continue;
+            }
+            let tag = op.tag();
+            let key = String::from_utf8(op.arg(1).bytes().to_vec()).unwrap();
+            let r = catch(|| match tag.as_str() {
+                "put" => {
+                    let n = op.arg(2).u64() as usize;
+                    let fault = op.arg(3).u64();
+                    assert!(n >= 22);
+                    let entry = CacheWrite::verif_with_comment(vec![b'p'; n - 22]);
+                    let _limit = if fault > 0 { Some(FileSizeLimit::set(fault - 1)) } else { None };
+                    match rt.block_on(cache.put(&key, entry)) {
+                        Ok(_) => "ok",
+                        Err(e) => classify(&e, fault > 0),
+                    }
+                }
+                "get" => match rt.block_on(cache.get(&key)) {
+                    Ok(Cache::Hit(_)) => "hit",
+                    Ok(Cache::Miss) => "miss",
+                    Ok(_) => "other",
+                    Err(e) => classify(&e, false),
+                },
+                _ => "bad_op",
+            });
+            match r {
+                Ok(res) => {
+                    let size = rt.block_on(cache.current_size()).unwrap().unwrap_or(0);
+                    let index = match &cache.verif_indexes()[0] {
+                        Some(v) => v
+                            .iter()
+                            .map(|(k, s)| Sx::L(vec![Sx::B(k.as_bytes().to_vec()), Sx::n(*s)]))
+                            .collect(),
+                        None => vec![],
+                    };
+                    let mut ntmp = 0;
+                    count_tmp(&root, &mut ntmp);
+                    out.push(Sx::L(vec![Sx::sym(res), Sx::n(size), Sx::L(index), Sx::n(ntmp)]));
+                }
+                Err(_) => {
+                    poisoned = true;
+                    out.push(Sx::L(vec![Sx::sym("panic")]));
+                }
+            }
+        }
+        Sx::L(out)
+    }
+}
+
 fn main() {
     vh::quiet_panics();
-    vh::run_lines(run_case);
+    if std::env::args().nth(1).as_deref() == Some("put") {
+        vh::run_lines(put_leg::run_case);
+    } else {
+        vh::run_lines(run_case);
+    }
 }
